@@ -840,6 +840,24 @@ func (interp *Interpreter) ast(f ast.Node) (string, *node, error) {
 			st.push(addChild(&root, anc, pos, parenExpr, aNop), nod)
 
 		case *ast.RangeStmt:
+			if a.Tok == token.ASSIGN {
+				// Assignment form `for k, v = range x`: iterate with hidden variables, which are
+				// assigned to the operands k and v at the beginning of each iteration.
+				assign := &ast.AssignStmt{TokPos: a.TokPos, Tok: token.ASSIGN}
+				for _, e := range []*ast.Expr{&a.Key, &a.Value} {
+					if id, ok := (*e).(*ast.Ident); *e == nil || ok && id.Name == "_" {
+						continue
+					}
+					h := &ast.Ident{NamePos: (*e).Pos(), Name: ".range" + strconv.Itoa(len(assign.Lhs))}
+					assign.Lhs = append(assign.Lhs, *e)
+					assign.Rhs = append(assign.Rhs, h)
+					*e = h
+				}
+				if len(assign.Lhs) > 0 {
+					a.Body.List = append([]ast.Stmt{assign}, a.Body.List...)
+				}
+				a.Tok = token.DEFINE
+			}
 			// Insert a missing ForRangeStmt for AST correctness
 			n := addChild(&root, anc, pos, forRangeStmt, aNop)
 			r := addChild(&root, astNode{n, nod}, pos, rangeStmt, aRange)
